@@ -806,6 +806,10 @@ def _tested(j, dest):
     return False
 
 
+ACCESSOR_TRAITS = ("std::ops::Index", "std::ops::Deref", "std::convert::From", "std::convert::AsRef", "std::convert::AsMut", "std::borrow::Borrow", "std::iter::Iterator", "std::iter::IntoIterator",
+                   "std::default::Default", "std::str::FromStr")
+
+
 def helpers_of(facts, known):
     bodies = {j["key"]: j for j in facts["bodies"]}
     fnvals = _fn_value_refs(bodies)
@@ -821,8 +825,12 @@ def helpers_of(facts, known):
             continue
         if k.startswith("<") or "::<impl " in k:
             # trait implementations are reached through trait dispatch and named by rules as `<T as Trait>::m`;
-            # a new impl is new behaviour, not a helper
-            continue
+            # a new impl is new behaviour, not a helper - except a new impl of one of std's accessor / operator / conversion
+            # traits (`rights[kind]`, `Delta::from(direction)`, `for s in squares`): sugar for a call of a private helper,
+            # statically resolved at every call site, and read like one
+            iid = _impl_id(k)
+            if iid is None or not iid[0].startswith(ACCESSOR_TRAITS):
+                continue
         if k.split("::")[-1] in ("main",) or "::tests::" in k or k.startswith("tests::"):
             continue
         cand.add(k)
@@ -950,6 +958,14 @@ def apply(facts, known=None):
     for key in touched:
         _fold_switches(bodies[key], adts)
         _resolve_refs(bodies[key])
+    # a helper that hands back Some(..) / None / Ok(..) built in its arms, tested by the caller right away (`match next()`,
+    # `if let Some(kind) = corner_kind(..)`): each arm continues where the caller's test sends that variant
+    from . import expand as _expand
+    for key in touched:
+        try:
+            _expand.thread_variant_switches(bodies[key], adts)
+        except Exception:      # a shape the threading does not know: leave the body as spliced
+            pass
     # helpers with no remaining direct call are dropped
     still = set()
     for key, j in bodies.items():
@@ -962,7 +978,9 @@ def apply(facts, known=None):
                 if ck in helpers:
                     still.add(ck)
     # a kept helper keeps the helpers it calls
-    gone = {h for h in helpers if h not in still}
+    # ... and the `next` of a new iterator type stays: values of that type also travel through std adaptors (`.map(..)`,
+    # `.collect()`), where nothing calls `next` directly, and the rules read what such an iterator yields from this body
+    gone = {h for h in helpers if h not in still and not ((_impl_id(h) or ("",))[0].startswith("std::iter::Iterator") and h.endswith("::next"))}
     first_caller = {}
     for (h, k), _n in sorted(log.items()):
         first_caller.setdefault(h, k)
